@@ -741,6 +741,34 @@ func Chain(depth int) Case {
 	return Case{Desc: fmt.Sprintf("chain depth=%d", depth), It: it, Ref: ref}
 }
 
+// Bushy builds a list nested depth levels deep in which the outermost `front` levels each hold
+// `sibs` empty lists BEFORE the child that continues the chain (and the innermost list holds
+// `tail` empty lists): many closed lists are decoded before and beside a deep one, so any
+// per-call nesting budget that is not restored when a list ends runs out although the tree
+// never nests deeper than depth.
+func Bushy(depth, front, sibs, tail int) Case {
+	empties := func(n int) ([]secs2.Item, []*e5.Val) {
+		its, refs := make([]secs2.Item, n), make([]*e5.Val, n)
+		for i := range its {
+			its[i], refs[i] = secs2.NewListItem(), &e5.Val{FC: e5.List}
+		}
+		return its, refs
+	}
+	its, refs := empties(tail)
+	it := secs2.Item(secs2.NewListItem(its...))
+	ref := &e5.Val{FC: e5.List, Kids: refs}
+	for level := depth - 1; level >= 1; level-- { // level = number of lists around the one being built
+		var kits []secs2.Item
+		var krefs []*e5.Val
+		if level <= front {
+			kits, krefs = empties(sibs)
+		}
+		it = secs2.NewListItem(append(kits, it)...)
+		ref = &e5.Val{FC: e5.List, Kids: append(krefs, ref)}
+	}
+	return Case{Desc: fmt.Sprintf("bushy depth=%d front=%d sibs=%d tail=%d", depth, front, sibs, tail), It: it, Ref: ref}
+}
+
 // SlabKinds are the eight decoded leaf kinds carved from the decoder's slabs.
 var SlabKinds = []string{"int", "uint", "float", "ascii", "jis8", "local", "binary", "bool"}
 
